@@ -1484,7 +1484,11 @@ class ApiFn(Fn):
         if sig["option"]:
             self.uses_option = True
             self.open_matches = getattr(self, "open_matches", 0)
-            txt += "match %s with None => None | Some callres => let %s := callres in\n" % (callt, self.pat(pat))
+            # the return type is written out: without it an ill-typed body makes Coq retry every enclosing match
+            rt = getattr(self, "opt_rty", "_")
+            lp = self.pat(pat)
+            bind = ("let %s := callres return %s in\n" % (lp, rt)) if lp.startswith("'") else ("let %s := callres in\n" % lp)
+            txt += "match %s return %s with None => None | Some callres => %s" % (callt, rt, bind)
             self.pending_close = getattr(self, "pending_close", 0) + 1
         else:
             txt += "let %s := %s in\n" % (self.pat(pat), callt)
@@ -1805,6 +1809,7 @@ class ApiFn(Fn):
                 self.rename[nm] = nm + "_loc"
         text = None
         self.uses_option_final = False
+        self.opt_rty = "option (%s)" % rty
         for _pass in (0, 1):
             self.uses_option = False
             self.consts, self.elems, self.ptrs = {}, {a: set(b) for a, b in getattr(self, "pre_elems", {}).items()}, {}
